@@ -106,6 +106,8 @@ type PrologueCfg struct {
 	LevMax   int64
 	Bond     int64
 	LevPool2 bool
+	// LevPool2Asset: volatile asset of the second market ("" = uelys; "uatom" = same as pool 1)
+	LevPool2Asset string
 }
 
 func (w *World) Prologue(c PrologueCfg) {
@@ -145,7 +147,13 @@ func (w *World) Prologue(c PrologueCfg) {
 		if c.Pool3 {
 			w.ElysMarketPool = 4
 		}
-		w.Step(5, w.Tx(u[0], w.CreatePoolMsg(u[0], PoolSpec{Oracle: true, Fee: c.Fee1, A: CoinI("uelys", elysAmt), B: Coin("uusdc", c.Scale), WA: 50, WB: 50})))
+		w.SecondAsset = "uelys"
+		second := CoinI("uelys", elysAmt)
+		if c.LevPool2Asset == "uatom" {
+			w.SecondAsset = "uatom"
+			second = CoinI("uatom", atomAmt)
+		}
+		w.Step(5, w.Tx(u[0], w.CreatePoolMsg(u[0], PoolSpec{Oracle: true, Fee: c.Fee1, A: second, B: Coin("uusdc", c.Scale), WA: 50, WB: 50})))
 		msgs = append(msgs, &lptypes.MsgAddPool{Authority: w.Gov, Pool: lptypes.AddPool{AmmPoolId: w.ElysMarketPool, LeverageMax: math.LegacyNewDec(c.LevMax)}})
 	}
 	if !w.GovExec("add pool", msgs...) {
